@@ -98,3 +98,22 @@ func VP_C18_digest_auth() {
 	}
 	vp.Cover("end")
 }
+
+// input sizes: server ids of 0..100 bytes (20 CJK characters are 60 bytes), the
+// 16-byte AES secret, DER keys of 162 bytes: the bytes hashed are still
+// serverID ++ secret ++ key in that order, whatever internal buffering is used.
+func VP_C18_digest_auth_sizes() {
+	vp.Unwind(400)
+	vp.SizeBound(400)
+	serverID := string(vp.Bytes([]int{0, 20, 48, 49, 60, 100}[vp.Choice(6)]))
+	secret := vp.Bytes([]int{16, 2}[vp.Choice(2)])
+	key := vp.Bytes([]int{3, 162}[vp.Choice(2)])
+	// only digests without sign or leading-zero subtleties here (those are the
+	// other harness's subject): the digest is a function of the hashed bytes
+	d := sha1.Sum(append(append([]byte(serverID), secret...), key...))
+	if vp.Symbolic() {
+		vp.Assume(d[0] >= 0x10 && d[0] < 0x80)
+	}
+	vpCheckDigest(serverID, secret, key)
+	vp.Cover("end")
+}
